@@ -82,13 +82,20 @@ Plain(t) == t \in {"CH", "HVR", "SH", "CERT", "SKE", "CR", "SHD", "CV", "CKE"}
 
 NoFrag == [ms |-> 0, seq |-> <<>>]
 
-InitEp(e, cert, dh, rnd, expFp) ==
+\* cert: the certificate the endpoint presents; key: the private key it signs with (KeyOf(cert) for an
+\* honest endpoint, the adversary's for an endpoint that presents somebody else's certificate)
+InitEp(e, cert, key, dh, rnd, expFp) ==
   [role |-> e, st |-> "Handshaking", sendSeq |-> 0, recvSeq |-> 0, postHvr |-> FALSE,
    tr |-> <<>>, cr |-> "-", sr |-> "-", prof |-> "-",
-   cert |-> cert, dh |-> dh, rnd |-> rnd, expFp |-> expFp,
+   cert |-> cert, key |-> key, dh |-> dh, rnd |-> rnd, expFp |-> expFp,
    peerCert |-> "-", skeOk |-> FALSE, cvOk |-> FALSE, crSeen |-> FALSE, peerDh |-> "-",
    keys |-> NoMaster, last |-> <<>>, frag |-> NoFrag,
    appGot |-> 0, appBad |-> 0, started |-> FALSE]
+
+\* Who runs an endpoint: "certC"/"certS" the genuine party; "certM" the adversary with its own certificate and
+\* key; "stolen" the adversary presenting the genuine party's certificate without having its key.
+CertOfId(id, e) == IF id = "stolen" THEN (IF e = "C" THEN "certC" ELSE "certS") ELSE id
+KeyOfId(id, e)  == IF id = "stolen" THEN "certM" ELSE id
 
 Flight(msgs, rtx, why) == [msgs |-> msgs, rtx |-> rtx, why |-> why]
 Res(s, out) == [s |-> s, out |-> out]
@@ -118,7 +125,7 @@ RecvCH(s, m) ==
         prof == "1"                                  \* prefers SRTP_AES128_CM_HMAC_SHA1_80 when offered
         sh   == [Msg("SH", q) EXCEPT !.rnd = s.rnd, !.prof = prof]
         cert == [Msg("CERT", q + 1) EXCEPT !.cert = s.cert]
-        ske  == [Msg("SKE", q + 2) EXCEPT !.dh = s.dh, !.sigBy = s.cert, !.sigCr = m.rnd,
+        ske  == [Msg("SKE", q + 2) EXCEPT !.dh = s.dh, !.sigBy = s.key, !.sigCr = m.rnd,
                                           !.sigSr = s.rnd, !.sigDh = s.dh]
         cr   == Msg("CR", q + 3)
         shd  == Msg("SHD", IF ClientAuth THEN q + 4 ELSE q + 3)
@@ -163,7 +170,7 @@ RecvSHD(s, m) ==
         cert  == [Msg("CERT", q) EXCEPT !.cert = s.cert]
         cke   == [Msg("CKE", IF auth THEN q + 1 ELSE q) EXCEPT !.dh = s.dh]
         tr1   == IF auth THEN s.tr \o <<Dig(cert), Dig(cke)>> ELSE Append(s.tr, Dig(cke))
-        cv    == [Msg("CV", q + 2) EXCEPT !.sigBy = s.cert, !.sigTr = tr1]
+        cv    == [Msg("CV", q + 2) EXCEPT !.sigBy = s.key, !.sigTr = tr1]
         tr2   == IF auth THEN Append(tr1, Dig(cv)) ELSE tr1
         ms    == Master(s.dh, s.peerDh, s.cr, s.sr, tr1)
         finq  == IF auth THEN q + 3 ELSE q + 1
